@@ -53,7 +53,7 @@ ASSUMPTIONS = [
     "every branch that carries a split has at least one point before it; the document's first "
     "branch is non-empty",
 ]
-REQUIRED = ["documents_converted", "rows_compared", "nested_splits", "empty_first_alt",
+REQUIRED = ["unchanged_files_converted_again", "conversions_started_inside_a_conversion", "documents_converted", "rows_compared", "nested_splits", "empty_first_alt",
             "empty_later_alt", "empty_split", "points_after_split", "documents_with_repeated_points",
             "path_converted_again_after_rewrite", "with_comments", "with_colours",
             "deep_documents", "long_branches", "densely_commented_long_documents",
@@ -328,11 +328,57 @@ def budget():
 _PATH_REUSE = [0]
 
 
+class RepeatDiffers(Exception):
+    pass
+
+
+_SIDE_DOC = "( (Dendrite) (10.25 20.5 30.75 1.5) (11.25 21.5 31.75 2.5) ( (12 22 32 3) | (13 23 33 4) ) )\n"
+_SIDE_ROWS = [(0, 3, 10.25, 20.5, 30.75, 1.5, -1), (1, 3, 11.25, 21.5, 31.75, 2.5, 0),
+              (2, 3, 12.0, 22.0, 32.0, 3.0, 1), (3, 3, 13.0, 23.0, 33.0, 4.0, 1)]
+_REENTRANT = [0]
+
+
+class _BusyStream(io.StringIO):
+    """A text stream whose reads run user code that converts another document (a progress
+    callback, a logging wrapper): the conversion in progress must not notice."""
+
+    def __init__(self, text):
+        super().__init__(text)
+        self._k = 0
+        self.side_problem = None
+
+    def _side(self):
+        self._k += 1
+        if self._k % 37 == 5 and self._k < 2000:
+            from swcgeom.transforms import NeurolucidaAscToSwc as _A
+
+            t = _A.from_stream(io.StringIO(_SIDE_DOC))
+            _REENTRANT[0] += 1
+            if table_of(t) != _SIDE_ROWS and self.side_problem is None:
+                self.side_problem = "a conversion started from inside another one returned a wrong table"
+
+    def read(self, *a):
+        self._side()
+        return super().read(*a)
+
+    def readline(self, *a):
+        self._side()
+        return super().readline(*a)
+
+
 def convert(entry, text, tmp):
     from swcgeom.transforms import NeurolucidaAscToSwc
 
     lim = 5000 * len(text) + 10**6
-    if entry == "from_stream":
+    if entry == "from_stream" and len(text) % 4 == 1:
+        def fn():
+            st = _BusyStream(text)
+            t = NeurolucidaAscToSwc.from_stream(st)
+            if st.side_problem:
+                raise RepeatDiffers(st.side_problem)
+            return t
+        lim += 4000 * 2000
+    elif entry == "from_stream":
         fn = lambda: NeurolucidaAscToSwc.from_stream(io.StringIO(text))  # noqa: E731
     else:
         path = os.path.join(tmp, "doc.asc")
@@ -385,7 +431,18 @@ def convert(entry, text, tmp):
         else:
             fn = lambda: NeurolucidaAscToSwc()(path)  # noqa: E731
     tree, _ = budget().run(lim, fn)
+    if entry in ("convert", "call") and len(text) < 200000:
+        # the same, unchanged file converted once more: the same table
+        again, _ = budget().run(lim, fn)
+        _SAME_FILE_AGAIN[0] += 1
+        if table_of(again) != table_of(tree):
+            raise RepeatDiffers(f"converting the same unchanged file a second time gave "
+                                f"{again.number_of_nodes()} nodes, the first time "
+                                f"{tree.number_of_nodes()}")
     return tree
+
+
+_SAME_FILE_AGAIN = [0]
 
 
 def table_of(tree):
@@ -441,6 +498,8 @@ def check_doc(ctx, case, tmp):
     except RecursionError as e:
         return ctx.violation("recursion-limit", f"RecursionError on a document with "
                                                 f"{model['npoints']} points: {str(e)[:80]}", case)
+    except RepeatDiffers as e:
+        return ctx.violation("conversion-depends-on-other-conversions", str(e), case)
     except Exception as e:
         return ctx.violation("well-formed-document-rejected",
                              f"{type(e).__name__}: {str(e)[:100]} <- {str(e.__cause__)[:200]} "
@@ -595,6 +654,8 @@ def run(ctx):
             execute(ctx, case)
     ctx.count("path_converted_again_after_rewrite", _PATH_REUSE[0])
     ctx.count("paths_spelled_through_links_or_relative", _PATH_SPELLINGS[0])
+    ctx.count("unchanged_files_converted_again", _SAME_FILE_AGAIN[0])
+    ctx.count("conversions_started_inside_a_conversion", _REENTRANT[0])
     ctx.count("tap_parser_raise", rt.raises["parse"])
     ctx.count("tap_parser_return", rt.returns["parse"])
 
